@@ -419,7 +419,8 @@ def connected_components(edges, min_len=1, nodes=None, engine=None):
         contained[nodes] = True
         index = np.arange(node_count, dtype=np.int64)[contained]
         components = grouping.group(labels[contained], min_len=min_len)
-        return [index[c] for c in components]
+        # `group` sorts with an unstable algorithm: restore the order of the nodes
+        return [index[np.sort(c)] for c in components]
 
         return components
 
